@@ -74,7 +74,7 @@ theorem handleSuccess_some (a : Agent) (now : Nat) (m : Msg) (l r : Cand) (src :
     (h : ansPair a now m l r src = some (pd, p)) :
     (a.handleSuccess now m l r src).1 =
       (C03.hsFin (hsB a now m pd p) p pd (C03.hsSel (hsB a now m pd p) p pd).1).modPair p.id
-        fun p => { p with respRecv := p.respRecv + 1 } := by
+        (Pair.gotResponse now pd.ts) := by
   obtain ⟨h1, h2, h3, h4, h5⟩ := ansPair_some h
   rw [C03.handleSuccess_eq, h1]
   simp only [h2, h3, h4, beq_self_eq_true, Bool.and_self, Bool.not_true, Bool.false_eq_true, if_false]
@@ -138,7 +138,7 @@ theorem handleSuccess_tail_g {wa : Bool} (a : Agent) (now : Nat) (m : Msg) (l r 
   rw [handleSuccess_some a now m l r src pd p h]
   refine ⟨G.then (((hsSel_g _ p pd).weaken (Or.inr rfl) (Or.inl rfl) (Or.inl rfl) (fun w => w)).trans
     ((hsFin_g _ p pd _).weaken (Or.inl rfl) (Or.inr rfl) (Or.inl rfl) (fun w => w)))
-    (G.modPair_keep _ p.id (fun p => { p with respRecv := p.respRecv + 1 }) (fun _ => rfl) (fun _ => rfl)
+    (G.modPair_keep _ p.id (Pair.gotResponse now pd.ts) (fun _ => rfl) (fun _ => rfl)
       (fun _ => rfl) (fun _ => rfl)), ?_⟩
   show (C03.hsFin _ p pd _).selected = _
   rw [C03.hsFin_selected]
@@ -193,7 +193,7 @@ theorem handleSuccess_marks (a : Agent) (now : Nat) (m : Msg) (l r : Cand) (src 
         rw [hno] at h1
         exact h1
   have hG2 := hsFin_g (wa := false) (hsB a now m pd p) p pd (C03.hsSel (hsB a now m pd p) p pd).1
-  exact nk_carry (G.modPair_keep (wa := false) _ p.id (fun p => { p with respRecv := p.respRecv + 1 })
+  exact nk_carry (G.modPair_keep (wa := false) _ p.id (Pair.gotResponse now pd.ts)
     (fun _ => rfl) (fun _ => rfl) (fun _ => rfl) (fun _ => rfl)) (Nat.le_trans hle1 hG2.npid) h2
 
 /-- the controlling selector: a response to a USE-CANDIDATE check selects when it carried a value that is not
